@@ -41,12 +41,16 @@ INT_AGGS = [['First'], ['Max'], ['Min'], ['Avg'], ['Sum'], ['Count']]
 def gen_gspec(rng, levels, item_kind):
     if levels == 0:
         if item_kind == 'int':
-            if rng.random() < 0.45:
+            r = rng.random()
+            if r < 0.35:
                 return ['list', [rng.choice(INT_VALS)]]
+            if r < 0.45:
+                return ['list', [rng.choice(INT_VALS), rng.choice(INT_VALS)]]      # two value specs per item
             return rng.choice(INT_AGGS)
         if item_kind == 'list':
             return rng.choice([['Flatten'], ['Count'], ['First'], ['list', [['T', 'T', []]]], ['list', [['fn', 'len']]],
-                               ['list', [['Auto', ['Sum']]]], ['list', [['Auto', ['Count']]]]])
+                               ['list', [['Auto', ['Sum']]]], ['list', [['Auto', ['Count']]]],
+                               ['SumOfGroupSum']])
         return rng.choice([['Merge'], ['Count'], ['First'], ['list', [['T', 'T', [['[', 'k']]]]]])
     if item_kind == 'int':
         keys = [rng.choice(INT_KEYS)]
@@ -79,6 +83,12 @@ def gen_case(seed, tier):
     nseq = rng.randint(2, 5)
     seqs = [{'items': gen_items(rng, item_kind), 'container': rng.choice(['simiter', 'simlist', 'list', 'gen', 'simiter'])}
             for _ in range(nseq)]
+    if 'SumOfGroupSum' in str(g):
+        # (an inner Group of a bare aggregator over NO items returns None, which the statement does not define)
+        for sq in seqs:
+            for it in sq['items']:
+                if not it['v']:
+                    it['v'].append(rng.randint(0, 9))
     mode = rng.choice(['repeat', 'repeat', 'interleave', 'interleave', 'nested', 'fault'])
     case = {'prop': PROP, 'seed': seed, 'knobs': simrun.draw_knobs(rng), 'gspec': g, 'limit': limit,
             'item_kind': item_kind, 'seqs': seqs, 'mode': mode}
@@ -165,8 +175,15 @@ class _Node:
         if kind == 'dict':
             return {k: c.result() for k, c in self.children.items()}
         if kind == 'list':
-            f = _fn(self.g[1][0])
-            return [y for y in (f(x) for x in items) if y is not SKIP]
+            out = []
+            for x in items:
+                for vr in self.g[1]:
+                    y = _fn(vr)(x)
+                    if y is not SKIP:
+                        out.append(y)
+            return out
+        if kind == 'SumOfGroupSum':
+            return sum(sum(x) for x in items)
         if kind == 'First':
             return items[0]
         if kind == 'Max':
@@ -231,10 +248,15 @@ def _alt_eval(g, t, tree):
         return _STOP if done else acc
     if kind == 'list':
         acc = tree.setdefault(('acc', id(g)), [])
-        r = _fn(g[1][0])(t)
-        if r is not SKIP:
-            acc.append(r)
+        for vr in g[1]:
+            r = _fn(vr)(t)
+            if r is not SKIP:
+                acc.append(r)
         return acc
+    if kind == 'SumOfGroupSum':
+        a_ = ('agg', id(g))
+        tree[a_] = tree.get(a_, 0) + sum(t)
+        return tree[a_]
     a = ('agg', id(g))
     if kind == 'First':
         if a not in tree:
